@@ -5,6 +5,7 @@ set -u
 cd "$(dirname "$0")/.." || exit 2
 N=${1:-50}; OUT=${2:-sensitivity/SEED_SWEEP.md}
 ./check.sh build || exit 2
+export LIQUID_SIM_VERIF_DIR="$(pwd)"
 mkdir -p "$(dirname "$OUT")"
 {
 echo "# Seed sweep on the unchanged tree"; echo
